@@ -13,17 +13,17 @@ def b101 (cfg : CfgVal) (fileName : Str) (_e : Env) : M (Option Raw) :=
   | .map _ =>
     let skips := (cfg.strList? "skips").getD []
     if skips.any (fun g => Glob.fnmatch fileName g) then pure none
-    else pure (some { id := "B101".toList, sev := .low, conf := .high })
+    else pure (some { sev := .low, conf := .high })
   | _ => throw .attributeError      -- `config.get` on a non-mapping
 
 /-! ## B102 exec_used -/
 def b102 (e : Env) : M (Option Raw) :=
-  if e.qual == "exec".toList then pure (some { id := "B102".toList, sev := .medium, conf := .high }) else pure none
+  if e.qual == "exec".toList then pure (some { sev := .medium, conf := .high }) else pure none
 
 /-! ## B104 / B108 (Str checks) -/
 def b104 (e : Env) : M (Option Raw) :=
   if e.node.strConst? == some "0.0.0.0".toList then
-    pure (some { id := "B104".toList, sev := .medium, conf := .medium }) else pure none
+    pure (some { sev := .medium, conf := .medium }) else pure none
 
 def defaultTmpDirs : List Str := ["/tmp".toList, "/var/tmp".toList, "/dev/shm".toList]
 
@@ -33,7 +33,7 @@ def b108 (cfg : CfgVal) (e : Env) : M (Option Raw) :=
     | none => defaultTmpDirs
   match e.node.strConst? with
   | some s => if dirs.any (fun d => Str.startsWith s d) then
-      pure (some { id := "B108".toList, sev := .medium, conf := .medium }) else pure none
+      pure (some { sev := .medium, conf := .medium }) else pure none
   | none => throw .attributeError
 
 /-! ## B110 / B112 -/
@@ -57,27 +57,27 @@ def b201 (e : Env) : M (Option Raw) := do
   if importedLike e.st "flask" then
     if Str.endsWith e.qual ".run".toList then
       if (← c.checkArg "debug" [.str "True".toList]) == some true then
-        return some { id := "B201".toList, sev := .high, conf := .medium, lineno := c.kwLineno "debug" }
+        return some { sev := .high, conf := .medium, lineno := c.kwLineno "debug" }
   return none
 
 /-! ## B601 paramiko_calls -/
 def b601 (e : Env) : M (Option Raw) :=
   if importedLike e.st "paramiko" && e.name == "exec_command".toList then
-    pure (some { id := "B601".toList, sev := .medium, conf := .medium }) else pure none
+    pure (some { sev := .medium, conf := .medium }) else pure none
 
 /-! ## B612 logging_config_insecure_listen -/
 def b612 (e : Env) : M (Option Raw) := do
   let some c := e.call? | throw .attributeError
   if e.qual == "logging.config.listen".toList then
     if !(← c.hasKw "verify") then
-      return some { id := "B612".toList, sev := .medium, conf := .high }
+      return some { sev := .medium, conf := .high }
   return none
 
 /-! ## B702 use_of_mako_templates -/
 def b702 (e : Env) : M (Option Raw) :=
   let parts := Str.splitOn '.' e.qual
   if parts.contains "mako".toList && Str.lastDot e.qual == "Template".toList then
-    pure (some { id := "B702".toList, sev := .medium, conf := .high }) else pure none
+    pure (some { sev := .medium, conf := .high }) else pure none
 
 /-! ## B103 set_bad_file_permissions -/
 def statDangerous (mode : Nat) : Bool := mode &&& 0o33 != 0     -- S_IWOTH|S_IWGRP|S_IXGRP|S_IXOTH = 2|16|8|1
@@ -92,7 +92,7 @@ def b103 (e : Env) : M (Option Raw) := do
         if m ≥ 0 ∧ statDangerous m.toNat then
           let sev : Rank := if m.toNat &&& 2 != 0 then .high else .medium
           let _ ← c.argAt 0      -- `filename = context.get_call_arg_at_position(0)` (may raise)
-          return some { id := "B103".toList, sev := sev, conf := .high }
+          return some { sev := sev, conf := .high }
       | _ => pure ()
   return none
 
@@ -148,14 +148,14 @@ def isCandidate (s0 : Str) : Bool :=
     | '_' :: t' => let w := wordRests t'; w.any atEnd || w.any (fun r => r.head? == some '_')
     | _ => false
 
-def pwRaw : Raw := { id := [], sev := .low, conf := .medium }
+def pwRaw : Raw := { sev := .low, conf := .medium }
 
 /-! ## B105 hardcoded_password_string -/
 def b105 (e : Env) : M (Option Raw) := do
   let n := e.node
   let some s := n.strConst? | throw .attributeError
   let some par := e.v.parent? | throw .attributeError
-  let hit := some { pwRaw with id := "B105".toList }
+  let hit := some pwRaw
   if par.isKind "Assign" then
     let fired := (par.kidList "targets").any fun t =>
       (match t.nameId? with | some i => isCandidate i | none => false) ||
@@ -189,7 +189,7 @@ def b106 (e : Env) : M (Option Raw) := do
       if ((CallView.kwValue kw).map Node.isStrConst).getD false then
         match CallView.kwName kw with
         | none => throw .typeError          -- `RE_CANDIDATES.search(None)` for `**"literal"`
-        | some a => if isCandidate a then pure (some { pwRaw with id := "B106".toList }) else go rest
+        | some a => if isCandidate a then pure (some pwRaw) else go rest
       else go rest
   go c.keywords
 
@@ -209,24 +209,24 @@ def b107 (e : Env) : M (Option Raw) := do
       | some v =>
         if v.constValue? == some .none then go rest
         else if v.isStrConst && isCandidate ((key.strAttr "arg").getD []) then
-          pure (some { pwRaw with id := "B107".toList })
+          pure (some pwRaw)
         else go rest
   go (params.zip defs)
 
 def miscChecks (pc : PluginCfg) (fileName : Str) : List Check :=
-  [ ⟨"B101".toList, "assert_used".toList, ["Assert".toList], b101 (pc.get "assert_used") fileName⟩,
-    ⟨"B102".toList, "exec_used".toList, ["Call".toList], b102⟩,
-    ⟨"B103".toList, "set_bad_file_permissions".toList, ["Call".toList], b103⟩,
-    ⟨"B104".toList, "hardcoded_bind_all_interfaces".toList, ["Str".toList], b104⟩,
-    ⟨"B105".toList, "hardcoded_password_string".toList, ["Str".toList], b105⟩,
-    ⟨"B106".toList, "hardcoded_password_funcarg".toList, ["Call".toList], b106⟩,
-    ⟨"B107".toList, "hardcoded_password_default".toList, ["FunctionDef".toList], b107⟩,
-    ⟨"B108".toList, "hardcoded_tmp_directory".toList, ["Str".toList], b108 (pc.get "hardcoded_tmp_directory")⟩,
-    ⟨"B110".toList, "try_except_pass".toList, ["ExceptHandler".toList], b110 (pc.get "try_except_pass")⟩,
-    ⟨"B112".toList, "try_except_continue".toList, ["ExceptHandler".toList], b112 (pc.get "try_except_continue")⟩,
-    ⟨"B201".toList, "flask_debug_true".toList, ["Call".toList], b201⟩,
-    ⟨"B601".toList, "paramiko_calls".toList, ["Call".toList], b601⟩,
-    ⟨"B612".toList, "logging_config_insecure_listen".toList, ["Call".toList], b612⟩,
-    ⟨"B702".toList, "use_of_mako_templates".toList, ["Call".toList], b702⟩ ]
+  [ .plugin "B101" "assert_used" ["Assert".toList] (b101 (pc.get "assert_used") fileName),
+    .plugin "B102" "exec_used" ["Call".toList] (b102),
+    .plugin "B103" "set_bad_file_permissions" ["Call".toList] (b103),
+    .plugin "B104" "hardcoded_bind_all_interfaces" ["Str".toList] (b104),
+    .plugin "B105" "hardcoded_password_string" ["Str".toList] (b105),
+    .plugin "B106" "hardcoded_password_funcarg" ["Call".toList] (b106),
+    .plugin "B107" "hardcoded_password_default" ["FunctionDef".toList] (b107),
+    .plugin "B108" "hardcoded_tmp_directory" ["Str".toList] (b108 (pc.get "hardcoded_tmp_directory")),
+    .plugin "B110" "try_except_pass" ["ExceptHandler".toList] (b110 (pc.get "try_except_pass")),
+    .plugin "B112" "try_except_continue" ["ExceptHandler".toList] (b112 (pc.get "try_except_continue")),
+    .plugin "B201" "flask_debug_true" ["Call".toList] (b201),
+    .plugin "B601" "paramiko_calls" ["Call".toList] (b601),
+    .plugin "B612" "logging_config_insecure_listen" ["Call".toList] (b612),
+    .plugin "B702" "use_of_mako_templates" ["Call".toList] b702 ]
 
 end Bandit.Plugins
